@@ -61,6 +61,8 @@ def run(F, rep, tier):
     ordering(rep, mf)
     concat(rep, ast)
     checker(F, rep, mf)
+    import c07
+    c07.guard_discipline(F, rep)
 
 
 def arith(rep, mf, F=None):
